@@ -124,14 +124,63 @@ def rule_tok(S):
             counted.add(b_)
     has_range = has_range or bool(counted)
 
+    # the lowered std::find_if(TABLE.begin(), TABLE.end(), pred) (yk/inline.py): a bounded loop over [__begin, __end) whose
+    # result is the iterator of the accepted element or TABLE.end()
+    def table_call(n, which, depth=0):
+        n = f.strip(n, casts=True)
+        if n is None or depth > 4:
+            return False
+        if n['k'] in CALL_KINDS and n.get('cn') == which and R.global_ref(f, call_recv(f, n)) == TABLE:
+            return True
+        if n['k'] == 'DeclRefExpr' and n.get('dk') == 'var':
+            inits = [v['init'] for m in f.all_nodes() if m['k'] == 'DeclStmt' for v in m.get('vars', [])
+                     if v['id'] == n.get('id') and 'init' in v]
+            return len(inits) == 1 and table_call(f.node(inits[0]), which, depth + 1)
+        return False
+
+    iters = {}
+    for m in f.all_nodes():
+        if m['k'] == 'DeclStmt':
+            for v in m.get('vars', []):
+                if v['name'] == '__begin' and 'init' in v and table_call(f.node(v['init']), 'begin'):
+                    iters[v['id']] = 'begin'
+    if iters and any(v['name'] == '__end' and 'init' in v and table_call(f.node(v['init']), 'end')
+                     for m in f.all_nodes() if m['k'] == 'DeclStmt' for v in m.get('vars', [])):
+        has_range = True
+
+    def it_value(n, env):
+        n = f.strip(n, casts=True)
+        if n is None:
+            return None
+        if n['k'] == 'DeclRefExpr':
+            if n.get('id') in iters:
+                return ('it', n['id'])
+            for (v, val) in env:
+                if v == n.get('id'):
+                    return val
+        if table_call(n, 'end'):
+            return ('end',)
+        return None
+
     def step(ctx, nd, st):
-        claimed, tok, exhausted = st
+        claimed, tok, exhausted, env = st
+        if nd['k'] == 'DeclStmt' and iters:
+            for v in nd.get('vars', []):
+                if 'init' in v and v['id'] not in iters:
+                    val = it_value(f.node(v['init']), env)
+                    env = frozenset(x for x in env if x[0] != v['id'])
+                    if val is not None:
+                        env = env | {(v['id'], val)}
+            return (claimed, tok, exhausted, env)
         if nd['k'] == 'BinaryOperator' and nd.get('op') == '=':
             c = f.ch(nd)
             if root_var(f, c[0]) == tokp:
                 r = f.strip(c[1], casts=True)
                 src = root_var(f, c[1]) if r is not None and r['k'] == 'UnaryOperator' and r.get('op') == '&' else None
-                return (claimed, src or 'other', exhausted)
+                for (v, val) in env:
+                    if v == src and val[0] == 'it':
+                        src = val[1]          # &*it for the iterator of the accepted element
+                return (claimed, src or 'other', exhausted, env)
         if nd['k'] == 'ReturnStmt':
             rc = R.ret_const(f, nd)
             if rc == OKS:
@@ -148,7 +197,21 @@ def rule_tok(S):
         return st
 
     def branch(ctx, blk, idx, st):
-        claimed, tok, exhausted = st
+        claimed, tok, exhausted, env = st
+        if blk.term and 'cond' in blk.term and len(blk.succ) == 2 and iters:
+            c0 = f.strip(blk.term['cond'], casts=True)
+            if c0 is not None and c0['k'] in ('BinaryOperator', 'CXXOperatorCallExpr') and \
+                    (c0.get('op') in ('==', '!=') or c0.get('cn') in ('operator==', 'operator!=')):
+                kids = f.ch(c0) if c0['k'] == 'BinaryOperator' else call_args(f, c0) or [f.node(x) for x in c0.get('args', [])]
+                if len(kids) == 2:
+                    a, b = it_value(kids[0], env), it_value(kids[1], env)
+                    # (the loop's own test `__begin != __end` is not a test of the algorithm's result)
+                    own = any((f.strip(x, casts=True) or {}).get('id') in iters for x in kids)
+                    if a is not None and b is not None and ('end',) in (a, b) and not own:
+                        equal = a == b       # the found iterator differs from end (the loop test held)
+                        is_eq = (c0.get('op') == '==') or (c0.get('cn') == 'operator==')
+                        if (idx == 0) != (equal == is_eq):
+                            return None
         if blk.term and 'cond' in blk.term and len(blk.succ) == 2:
             c = f.strip(blk.term['cond'], casts=True)
             neg = False
@@ -157,19 +220,19 @@ def rule_tok(S):
                 c = f.strip(f.ch(c)[0], casts=True)
             if c is not None and is_call(c, cq=TI + '::gain_the_right'):
                 if (idx == 0) != neg:
-                    return (root_var(f, call_recv(f, c)), tok, exhausted)
-                return (None, tok, exhausted)
+                    return (root_var(f, call_recv(f, c)), tok, exhausted, env)
+                return (None, tok, exhausted, env)
             if blk.term.get('k') == 'CXXForRangeStmt':
                 if idx == 1:
-                    return (None, tok, True)
-                return (None, None, False)
+                    return (None, tok, True, env)
+                return (None, None, False, env)
             if blk.id in counted:
                 if idx == 1:
-                    return (None, tok, True)
-                return (None, None, False)
+                    return (None, tok, True, env)
+                return (None, None, False, env)
         return st
 
-    Explorer(f, step, branch).run((None, None, False))
+    Explorer(f, step, branch).run((None, None, False, frozenset()))
     S.ob('R-TOK', f.qname, 'iterates the session table', has_range, 'a loop over the whole thread_info_table_' if has_range else
          'assign_thread_info does not iterate thread_info_table_', loc=f.loc)
     S.require('R-TOK', 'OK returns', len(res['ok']), 1)
